@@ -41,8 +41,9 @@ theorem good_ser (hP : P.Wire) (w : World) (p : PGhost ι) (hg : Good P hf w p) 
       rw [inSync_eq] at hins
       by_cases he : f.isEmpty = true
       · left
-        obtain ⟨nb, hpe⟩ := parse_image_empty P hP w f hw he
-        refine ⟨nb, _, _, hpe, ?_⟩
+        have hpe := parse_image_empty P hP w f hw (hok.k1 hp) he
+        have hcb : f.capBits ≤ 2 ^ 32 - 64 := by have := (hok.k1 hp).2; have := hw.cap64; omega
+        refine ⟨_, _, _, hpe, ?_, hcb⟩
         cases hM : i.M with
         | nil => rfl
         | cons a t =>
@@ -54,7 +55,7 @@ theorem good_ser (hP : P.Wire) (w : World) (p : PGhost ι) (hg : Good P hf w p) 
           fun j hj => image_bit P w f he' j hj
         have hpc : popCount (image P w f).val 256 f.capBits = popCount (w.val f) (f.off P) f.capBits :=
           popCount_congr _ _ _ _ _ hbits
-        refine ⟨_, _, _, _, _, parse_image_full P hP w f hw he', hok.k1 hp, ?_, ?_, hok.hs⟩
+        refine ⟨_, _, _, _, _, parse_image_full P hP w f hw (hok.k1 hp) he', hok.k1 hp, ?_, ?_, hok.hs⟩
         · by_cases hd : f.dirty = true
           · left; simp only [hd, if_true]; rw [hP.dirty]
           · right
